@@ -453,6 +453,274 @@ def argless_cases():
                                                        {'return': {'expr': X}}]}
 
 
+# (D) call-arity matrix: a script function with k parameters called with m arguments, for every k, m, lastArgArray spelling,
+#     parameter-name class (fresh / named like global variables / named like global functions), globals configuration (none /
+#     supplied by the host / assigned by the script) and caller (top level / a function whose own locals carry the same names /
+#     a systemPartial value).  The body reports every parameter (type, conditional jump on "is it null", value) and assigns to one.
+#     Closed-form oracle from the calling convention: parameter i is argument i, null when there is no argument i, the rest
+#     array for the last parameter of a lastArgArray function; metamorphic oracle: what the function sees does not depend on
+#     the globals at all.
+PARAM_SETS = {'fresh': ['p', 'q', 'r'], 'like-globals': ['a', 'n', 'y'], 'like-functions': ['f', 'g', 'tr']}
+ARITY_GLOBALS = {'p': 'Gp', 'q': 101, 'r': [1], 'a': 'Ga', 'n': 102, 'y': {'k': 1}, 'tr': True}
+LAA_SPELLINGS = {'laa-absent': None, 'laa-false': False, 'laa-true': True}
+
+
+def e_str(text):
+    return {'string': text}
+
+
+def e_var(name):
+    return {'variable': name}
+
+
+def e_bin(op, left, right):
+    return {'binary': {'op': op, 'left': left, 'right': right}}
+
+
+def s_assign(name, expr):
+    return {'expr': {'name': name, 'expr': expr}}
+
+
+def s_expr(expr):
+    return {'expr': {'expr': expr}}
+
+
+def arity_model(pset, k, laa, m, gconf, caller):
+    params = PARAM_SETS[pset][:k]
+    body = []
+    for ix, p in enumerate(params):
+        body += [s_expr(e_call('systemLog', e_bin('+', e_str(p + ' '), e_call('systemType', e_var(p))))),
+                 {'jump': {'label': 'has%d' % ix, 'expr': e_bin('!=', e_var(p), e_var('null'))}},
+                 s_expr(e_call('systemLog', e_str(p + ' is null'))),
+                 {'label': 'has%d' % ix}]
+    body.append(s_assign('res', e_call('arrayNew', *[e_var(p) for p in params])))
+    if params:
+        body.append(s_assign(params[-1], e_str('assigned in f')))          # local: the global of that name must not change
+        body.append(s_expr(e_call('systemLog', e_var(params[-1]))))
+    body.append({'return': {'expr': e_var('res')}})
+    fdef = {'name': 'f', 'statements': body}
+    if k:                                                                # the schema wants a non-empty args member
+        fdef['args'] = params
+    if LAA_SPELLINGS[laa] is not None:
+        fdef['lastArgArray'] = LAA_SPELLINGS[laa]
+    stmts = []
+    if gconf == 'script':
+        stmts += [s_assign(name, e_str('S' + name)) for name in ('p', 'q', 'r', 'a', 'n', 'y')]
+    stmts.append({'function': fdef})
+    args = [{'number': 11 + ix} for ix in range(m)]
+    if caller == 'top':
+        stmts.append(s_assign('out', e_call('f', *args)))
+    elif caller == 'nested':
+        # the caller's own locals have the names of the callee's parameters (all three, non-null) and it passes the first m
+        own = PARAM_SETS[pset]
+        stmts.append({'function': {'name': 'g', 'args': own + ['extra'], 'statements': [
+            s_assign('own', e_str('local of g')),
+            {'return': {'expr': e_call('f', *([e_var(v) for v in own] + [e_var('extra')])[:m])}}]}})
+        stmts.append(s_assign('out', e_call('g', {'number': 11}, {'number': 12}, {'number': 13}, {'number': 14})))
+    else:                                                                # 'partial': the first argument is bound by systemPartial
+        stmts.append(s_assign('h', e_call('systemPartial', e_var('f'), args[0])))
+        stmts.append(s_assign('out', e_call('h', *args[1:])))
+    stmts.append(s_expr(e_call('systemLog', e_bin('+', e_str('after '), e_call('systemType', e_var('out'))))))
+    stmts.append({'return': {'expr': e_var('out')}})
+    return {'statements': stmts}
+
+
+def arity_expected(pset, k, laa, m):
+    """(result, log) by the calling convention, as Python values"""
+    params = PARAM_SETS[pset][:k]
+    args = [11 + ix for ix in range(m)]
+    bound = []
+    for ix in range(k):
+        if LAA_SPELLINGS[laa] and ix == k - 1:
+            bound.append(args[ix:])
+        else:
+            bound.append(args[ix] if ix < m else None)
+    log = []
+    for p, v in zip(params, bound):
+        log.append(p + ' ' + ('null' if v is None else 'array' if isinstance(v, list) else 'number'))
+        if v is None:
+            log.append(p + ' is null')
+    if params:
+        log.append('assigned in f')
+    log.append('after array')
+    return bound, log
+
+
+def arity_cases():
+    for pset in PARAM_SETS:
+        for k in range(4):
+            for laa in LAA_SPELLINGS:
+                for m in range(k + 2):
+                    for caller in ('top', 'nested', 'partial'):
+                        # partial: needs a first argument; like-functions: a caller with a local named f could not call f
+                        if (caller == 'partial' and m == 0) or (caller == 'nested' and pset == 'like-functions'):
+                            continue
+                        for gconf in ('none', 'host', 'script'):
+                            yield [pset, k, laa, m, gconf, caller]
+
+
+def arity_globals(gconf):
+    return dict(ARITY_GLOBALS) if gconf == 'host' else {}
+
+
+def arity_oracles(params, model, max_statements):
+    """-> [(oracle, expected, actual, extra witness fields)]"""
+    pset, k, laa, m, gconf, caller = params
+    got = run_impl(model, arity_globals(gconf), max_statements)
+    bad = []
+    result, log = arity_expected(pset, k, laa, m)
+    expected = {'result': progen.value_to_wire(result), 'log': log}
+    actual = {key: got.get(key, got.get('error', got.get('hostexc'))) for key in ('result', 'log')}
+    if actual != expected:
+        bad.append(('parameter-binding', expected, actual, {'expect': expected}))
+    if gconf != 'none':
+        base_model = arity_model(pset, k, laa, m, 'none', caller)
+        base = run_impl(base_model, {}, max_statements)
+        seen_base = {key: base.get(key, base.get('error', base.get('hostexc'))) for key in ('result', 'log')}
+        if actual != seen_base:
+            bad.append(('callee-sees-only-its-parameters', seen_base, actual, {'base_model': base_model, 'base_globals': {}}))
+    return bad
+
+
+# (E) fresh values: an expression that builds a container is evaluated several times (a loop, a function called twice, a second
+#     execution of the model) and the container it returned is modified in place in between.  Every evaluation must yield the
+#     same fresh value: a value that aliases a part of the model, of the function model or of an earlier evaluation shows as a
+#     changed model, as a different second run or as a different value in the second iteration.
+def fresh_producers():
+    """name -> (expression, kind of the container that is mutated, expression that reaches it from variable a, definitions)"""
+    a = e_var('a')
+    rest = {'function': {'name': 'rest', 'args': ['r'], 'lastArgArray': True, 'statements': [{'return': {'expr': e_var('r')}}]}}
+    rest2 = {'function': {'name': 'rest2', 'args': ['p', 'r'], 'lastArgArray': True, 'statements': [{'return': {'expr': e_var('r')}}]}}
+    mk = {'function': {'name': 'mk', 'statements': [{'return': {'expr': e_call('arrayNew')}}]}}
+    mko = {'function': {'name': 'mko', 'statements': [{'return': {'expr': e_call('objectNew')}}]}}
+    ident = {'function': {'name': 'ident', 'args': ['v'], 'statements': [{'return': {'expr': e_var('v')}}]}}
+    n1, n2 = {'number': 1}, {'number': 2}
+    return {
+        'arrayNew()': (e_call('arrayNew'), 'array', a, []),
+        'arrayNew(1)': (e_call('arrayNew', n1), 'array', a, []),
+        'arrayNew(1,2)': (e_call('arrayNew', n1, n2), 'array', a, []),
+        'arrayNew(arrayNew())': (e_call('arrayNew', e_call('arrayNew')), 'array', e_call('arrayGet', a, {'number': 0}), []),
+        'arrayCopy(arrayNew())': (e_call('arrayCopy', e_call('arrayNew')), 'array', a, []),
+        'objectNew()': (e_call('objectNew'), 'object', a, []),
+        'objectNew(k,1)': (e_call('objectNew', e_str('k'), n1), 'object', a, []),
+        'objectNew(k,arrayNew())': (e_call('objectNew', e_str('k'), e_call('arrayNew')), 'array', e_call('objectGet', a, e_str('k')), []),
+        'rest()': (e_call('rest'), 'array', a, [rest]),
+        'rest(1,2)': (e_call('rest', n1, n2), 'array', a, [rest]),
+        'rest2(1)': (e_call('rest2', n1), 'array', a, [rest2]),
+        'mk()': (e_call('mk'), 'array', a, [mk]),
+        'mko()': (e_call('mko'), 'object', a, [mko]),
+        'ident(arrayNew())': (e_call('ident', e_call('arrayNew')), 'array', a, [ident]),
+        'if(true,arrayNew())': (e_call('if', e_var('true'), e_call('arrayNew')), 'array', a, []),
+        'null||arrayNew()': (e_bin('||', e_var('null'), e_call('arrayNew')), 'array', a, []),
+        '(objectNew())': ({'group': e_call('objectNew')}, 'object', a, []),
+    }
+
+
+def fresh_mutators(kind):
+    """name -> (call on the target expression t, modelled by the Lean host?)"""
+    seven = {'number': 7}
+    if kind == 'array':
+        return {
+            'arrayPush': (lambda t: e_call('arrayPush', t, seven), True),
+            'arrayPush2': (lambda t: e_call('arrayPush', t, seven, e_str('s')), True),
+            'arraySet': (lambda t: e_call('arraySet', t, {'number': 0}, seven), True),
+            'arrayPop': (lambda t: e_call('arrayPop', t), True),
+            'arrayShift': (lambda t: e_call('arrayShift', t), False),
+            'arrayExtend': (lambda t: e_call('arrayExtend', t, e_call('arrayNew', seven, {'number': 8})), False),
+            'arrayDelete': (lambda t: e_call('arrayDelete', t, {'number': 0}), False),
+            'arraySort': (lambda t: e_call('arraySort', e_call('arrayPush', t, {'number': -7})), False),
+        }
+    return {
+        'objectSet': (lambda t: e_call('objectSet', t, e_str('z'), seven), True),
+        'objectSet-k': (lambda t: e_call('objectSet', t, e_str('k'), seven), True),
+        'objectDelete': (lambda t: e_call('objectDelete', t, e_str('k')), False),
+        'objectAssign': (lambda t: e_call('objectAssign', t, e_call('objectNew', e_str('z'), seven)), False),
+    }
+
+
+def fresh_model(producer, mutator, context):
+    expr, kind, target, defs = fresh_producers()[producer]
+    mutate = fresh_mutators(kind)[mutator][0](target)
+    core = [s_assign('a', expr),
+            s_expr(e_call('systemLog', e_bin('+', e_str('new '), e_var('a')))),
+            s_expr(mutate),
+            s_expr(e_call('systemLog', e_bin('+', e_str('mut '), e_var('a'))))]
+    stmts = copy.deepcopy(defs)
+    if context == 'rerun':                       # straight line: the second evaluation is the second execution of the model
+        stmts += core + [{'return': {'expr': e_var('a')}}]
+    elif context == 'loop':
+        stmts += [{'label': 'top'}] + core + [s_assign('i', e_bin('+', e_var('i'), {'number': 1})),
+                                              {'jump': {'label': 'top', 'expr': e_bin('<', e_var('i'), {'number': 3})}},
+                                              {'return': {'expr': e_var('a')}}]
+    elif context == 'function-twice':
+        stmts += [{'function': {'name': 'work', 'statements': core + [{'return': {'expr': e_var('a')}}]}},
+                  s_assign('one', e_call('work')), s_assign('two', e_call('work')),
+                  {'return': {'expr': e_call('arrayNew', e_var('one'), e_var('two'))}}]
+    else:                                        # 'condition': producer and mutation sit in a jump condition evaluated three times
+        inline = fresh_mutators(kind)[mutator][0](expr)
+        stmts += [{'label': 'top'}, s_assign('i', e_bin('+', e_var('i'), {'number': 1})),
+                  {'jump': {'label': 'done', 'expr': e_bin('>', e_var('i'), {'number': 3})}},
+                  s_expr(e_call('systemLog', e_bin('+', e_str('new '), expr))),
+                  {'jump': {'label': 'top', 'expr': e_bin('||', e_bin('&&', s_assign('a', inline)['expr']['expr'], e_var('null')),
+                                                          e_var('true'))}},
+                  {'label': 'done'}, {'return': {'expr': e_var('i')}}]
+    return {'statements': stmts}
+
+
+def fresh_cases():
+    for producer, (_, kind, target, _) in fresh_producers().items():
+        for mutator, (_, modelled) in fresh_mutators(kind).items():
+            for context in ('rerun', 'loop', 'function-twice', 'condition'):
+                if context == 'condition' and target != e_var('a'):
+                    continue
+                yield [producer, mutator, context], modelled
+
+
+def fresh_oracle(out):
+    """every evaluation of the producer gave the same value and the same mutation result: -> None or (expected, actual)"""
+    new = [line for line in out.get('log', []) if line.startswith('new ')]
+    mut = [line for line in out.get('log', []) if line.startswith('mut ')]
+    if len(set(new)) > 1 or len(set(mut)) > 1:
+        return ({'new': new[:1] * len(new), 'mut': mut[:1] * len(mut)}, {'new': new, 'mut': mut})
+    return None
+
+
+def call_sites(node, out):
+    """every call expression dict below a model / statement list / expression"""
+    if isinstance(node, list):
+        for item in node:
+            call_sites(item, out)
+    elif isinstance(node, dict):
+        if len(node) == 1 and 'function' in node and 'statements' not in node['function']:
+            out.append(node)
+        for value in node.values():
+            call_sites(value, out)
+    return out
+
+
+def poke_model(model):
+    """Deep copy of the model in which every assignment `v = E` is followed by an in-place modification of the value, whatever
+    built it: if(systemType(v) == 'array', arrayPush(v, 9), if(systemType(v) == 'object', objectSet(v, 'poke', 9))).
+    A value that aliases the model, a function model or the value of another evaluation is then modified together with it."""
+    def poke(name):
+        v = e_var(name)
+        kind = e_call('systemType', v)
+        return s_expr(e_call('if', e_bin('==', kind, e_str('array')), e_call('arrayPush', v, {'number': 9}),
+                             e_call('if', e_bin('==', kind, e_str('object')), e_call('objectSet', v, e_str('poke'), {'number': 9}))))
+
+    def walk(statements):
+        out = []
+        for stmt in statements:
+            if 'function' in stmt:
+                stmt = {'function': dict(stmt['function'], statements=walk(stmt['function']['statements']))}
+            out.append(stmt)
+            if 'expr' in stmt and stmt['expr'].get('name') is not None:
+                out.append(poke(stmt['expr']['name']))
+        return out
+    model = copy.deepcopy(model)
+    return {'statements': walk(model['statements'])}
+
+
 def stream_directed(ctx, driver=True):
     st = ctx.stream('exec-directed',
                     '(A) dup-label: statement lists over {jump L1, jump L2, label L1, label L2, return <position>, x=x+1, jumpif (x<2) L1} '
@@ -463,6 +731,18 @@ def stream_directed(ctx, driver=True):
                     'same comparison and oracles, (B) additionally: identical to its JSON deep copy; (C) argless: 20 hand-built models '
                     'whose call expressions omit the optional args member (script functions with 0/1/2/variadic parameters called from '
                     'the top level, a function and a jump condition; 8 library functions), additionally: same outcome as with args: []; '
+                    '(D) call-arity matrix: a script function with k = 0..3 parameters (named p/q/r, like the global variables a/n/y, or '
+                    'like the global functions f/g/tr; lastArgArray absent/false/true) called with m = 0..k+1 arguments from the top '
+                    'level, from a function whose own locals have the same names, and through systemPartial, with no globals / '
+                    'host-supplied globals / script-assigned globals of the parameter names; the body reports each parameter (type, '
+                    'conditional jump on != null), assigns to the last one and returns the array of them; additionally: closed-form '
+                    'result and log from the calling convention (parameter-binding) and the same result and log as without any '
+                    'globals (callee-sees-only-its-parameters); (E) fresh values: 17 container-building expressions (arrayNew/objectNew '
+                    'with 0..2 arguments, nested, through arrayCopy / a variadic script function / a script function / if() / || / a '
+                    'group; with args: [] and without the args member) x in-place library functions (arrayPush/Set/Pop, objectSet on the '
+                    'Lean host; arrayShift/Extend/Delete/Sort, objectDelete/Assign implementation-only) x re-evaluation by a second '
+                    'execution / a three-round loop / a function called twice / a jump condition; additionally: every evaluation logs '
+                    'the same new value and the same modified value (fresh-value-each-evaluation); '
                     'non-trivial = all')
     validate = fw.impl()['model'].validate_script
     saved_driver = ctx.driver
@@ -509,6 +789,36 @@ def stream_directed(ctx, driver=True):
             if full != got:
                 ctx.witness('call-without-args-is-call-with-no-arguments', {'model': bare, 'globals': g, 'max': MAX_EXH, 'history': []},
                             full, got)
+        # (D): call-arity matrix
+        chunk = []
+        for params in arity_cases():
+            model = arity_model(*params)
+            chunk.append((['arity'] + params, model, arity_globals(params[4]),
+                          ['arity', params[0], params[2], 'k%d' % params[1], 'm%d' % params[3], 'globals-' + params[4], 'caller-' + params[5],
+                           'omitted' if params[3] < params[1] else 'extra' if params[3] > params[1] else 'exact']))
+        run_chunk(ctx, 'exec-directed', st, chunk, MAX_EXH, 400, lambda m, o: True)
+        for case, _, g, _ in chunk:
+            model = arity_model(*case[1:])                 # a fresh object: an earlier run may have changed the one in the chunk
+            for name, expected, actual, extra in arity_oracles(case[1:], model, MAX_EXH):
+                ctx.witness(name, dict({'model': arity_model(*case[1:]), 'globals': g, 'max': MAX_EXH, 'history': []}, **extra),
+                            expected, actual)
+        # (E): fresh values; mutators outside the Lean host's library run the implementation oracles only
+        chunks = {True: [], False: []}
+        for params, modelled in fresh_cases():
+            model = fresh_model(*params)
+            tags = ['fresh', params[2], 'lean-host' if modelled else 'impl-only']
+            chunks[modelled].append((['fresh'] + params, model, {'i': 0}, tags))
+            if call_sites(model, []) and _argless(model) != model:
+                chunks[modelled].append((['fresh-argless'] + params, _argless(model), {'i': 0}, tags + ['argless']))
+        for modelled, chunk in chunks.items():
+            run_chunk(ctx, 'exec-directed', st, chunk, MAX_EXH, 400, lambda m, o: True, use_driver=modelled)
+            for case, _, g, _ in chunk:
+                def rebuilt(case=case):            # a fresh object: an earlier run may have changed the one in the chunk
+                    model = fresh_model(*case[1:])
+                    return _argless(model) if case[0] == 'fresh-argless' else model
+                found = fresh_oracle(run_impl(rebuilt(), g, MAX_EXH))
+                if found is not None:
+                    ctx.witness('fresh-value-each-evaluation', {'model': rebuilt(), 'globals': g, 'max': MAX_EXH, 'history': []}, *found)
     finally:
         ctx.driver = saved_driver
 
@@ -570,6 +880,20 @@ def random_model(rng):
     if rng.random() < 0.75:
         model, mtags = mutate_model(rng, model)
         tags += mtags
+    # calls of script functions with fewer arguments than written (omitted parameters), or with none at all
+    if rng.random() < 0.4:
+        defined = {s['function']['name'] for lst in all_lists(model['statements']) for s in lst if 'function' in s} - {'tr'}
+        sites = [c for c in call_sites(model, []) if c['function']['name'] in defined and c['function'].get('args')]
+        for site in rng.sample(sites, min(len(sites), rng.randint(1, 3))):
+            if rng.random() < 0.3:
+                site['function']['args'] = []
+            else:
+                del site['function']['args'][-1]
+            tags.append('drop-arg')
+    # every assigned value is modified in place right after the assignment
+    if rng.random() < 0.5:
+        model = poke_model(model)
+        tags.append('poke')
     # hand-built: keep at most 40 top-level statements (cutting a lowered program leaves dangling jumps: wanted)
     if len(model['statements']) > 40:
         model['statements'] = model['statements'][:40]
@@ -603,6 +927,9 @@ def no_neg_zero(out):
 
 
 def report(ctx, oracle_bad, input_):
+    for name, expected, _ in oracle_bad:
+        if name == 'model-immutable':        # the execution changed the model object: the witness is the model as it was before
+            input_ = dict(input_, model=expected)
     for name, expected, actual in oracle_bad:
         ctx.witness(name, input_, expected, actual)
 
@@ -617,7 +944,7 @@ def outcome_tags(impl):
     return ['ok']
 
 
-def run_chunk(ctx, stream, st, chunk, max_statements, fuel, nontrivial_fn):
+def run_chunk(ctx, stream, st, chunk, max_statements, fuel, nontrivial_fn, use_driver=True):
     """chunk: [(case-id, model, globals, tags)] -> correspondence + oracles"""
     validate = fw.impl()['model'].validate_script
     reqs = []
@@ -625,7 +952,7 @@ def run_chunk(ctx, stream, st, chunk, max_statements, fuel, nontrivial_fn):
         validate(model)
         reqs.append({'op': 'exec', 'script': progen.canon_script(model), 'globals': progen.wire_globals(g),
                      'max': max_statements, 'fuel': fuel})
-    resps = ctx.driver.batch(reqs) if ctx.driver is not None else [None] * len(reqs)
+    resps = ctx.driver.batch(reqs) if ctx.driver is not None and use_driver else [None] * len(reqs)
     prev = None
     for (case, model, g, tags), resp in zip(chunk, resps):
         if HANGS[0] >= 3:
@@ -686,8 +1013,9 @@ def stream_random(ctx, n, driver=True, name='exec-random'):
     rng = ctx.rng(name)
     st = ctx.stream(name,
                     'corpus + random models <= 40 top-level statements: progen.Gen programs with raw labels/jumps, parsed, then hand-built '
-                    'mutations (duplicate labels, labels dropped, dangling jumps, jumps to labels of other lists, stray returns, cut at 40), '
-                    'validated; x initial globals of all value kinds; maxStatements=300; same comparison and oracles; non-trivial = one '
+                    'mutations (duplicate labels, labels dropped, dangling jumps, jumps to labels of other lists, stray returns, cut at 40; '
+                    '40%: trailing arguments dropped from calls of script functions; 50%: every assignment followed by an in-place '
+                    'arrayPush/objectSet on the assigned value), validated; x initial globals of all value kinds; maxStatements=300; same comparison and oracles; non-trivial = one '
                     'list of the model has a jump and a label statement')
     saved_driver = ctx.driver
     if not driver:
@@ -709,10 +1037,113 @@ def stream_random(ctx, n, driver=True, name='exec-random'):
         ctx.driver = saved_driver
 
 
+# ---------------------------------------------------------------------------------------------------------------------
+# witnesses: the one that goes into the replay file is small enough to be stored whole and fails again in a fresh process
+# ---------------------------------------------------------------------------------------------------------------------
+
+REPLAY_LIMIT = 18000         # fw stores the first witness whole only below 20000 characters
+
+
+def witness_size(w):
+    return len(json.dumps(w, default=str))
+
+
+def shrink_witness(w, max_replays=400):
+    """Greedy statement deletion (any list of the model, the history first) while the same oracle still fails."""
+    inp = w['input']
+    if 'shared' in inp or 'model' not in inp or w['oracle'] not in ('model-immutable', 'repeatable', 'documented-statement-semantics'):
+        return w
+    validate = fw.impl()['model'].validate_script
+
+    def still_fails(candidate):
+        try:
+            validate(candidate['input']['model'])
+            return replay(copy.deepcopy(candidate))
+        except Exception:  # pylint: disable=broad-except
+            return False
+    best = copy.deepcopy(w)
+    replays = 0
+    if best['input'].get('history'):
+        trial = copy.deepcopy(best)
+        trial['input']['history'] = []
+        replays += 1
+        if still_fails(trial):
+            best = trial
+    progress = True
+    while progress and replays < max_replays:
+        progress = False
+        n_lists = len(list(all_lists(best['input']['model']['statements'])))
+        for li in range(n_lists):
+            ix = len(list(all_lists(best['input']['model']['statements']))[li]) - 1
+            while ix >= 0 and replays < max_replays:
+                trial = copy.deepcopy(best)
+                del list(all_lists(trial['input']['model']['statements']))[li][ix]
+                replays += 1
+                if still_fails(trial):
+                    best = trial
+                    progress = True
+                    if len(list(all_lists(best['input']['model']['statements']))) != n_lists:
+                        break                      # a function definition went away: the lists are renumbered
+                ix -= 1
+            if len(list(all_lists(best['input']['model']['statements']))) != n_lists:
+                break
+    if best['input'] != w['input']:
+        for earlier in best['input'].get('history', []):
+            run_impl(copy.deepcopy(earlier), best['input']['globals'], best['input']['max'])
+        _, bad = impl_oracles(copy.deepcopy(best['input']['model']), best['input']['globals'], best['input']['max'])
+        for name, expected, actual in bad:
+            if name == best['oracle']:
+                best['expected'], best['actual'] = expected, actual
+        best['shrunk'] = f'statements deleted while the oracle still failed ({witness_size(w)} -> {witness_size(best)} characters)'
+    return best
+
+
+def replays_in_fresh_process(w):
+    """python harness/check.py C08 --replay <file> in a new interpreter (same VERIF_REPO): does the witness fail there too?"""
+    import subprocess
+    import sys
+    import tempfile
+    harness = os.path.dirname(os.path.dirname(os.path.abspath(__file__)))
+    with tempfile.NamedTemporaryFile('w', suffix='.json', delete=False, encoding='utf-8') as fh:
+        json.dump({'property': ID, 'kind': 'failing-input', 'witness': w}, fh, default=str)
+    try:
+        res = subprocess.run([sys.executable, os.path.join(harness, 'check.py'), ID, '--replay', fh.name], cwd=os.path.dirname(harness),
+                             capture_output=True, text=True, timeout=120, check=False)
+        return res.returncode == 1 and 'VIOLATION' in res.stdout
+    except Exception:  # pylint: disable=broad-except
+        return False
+    finally:
+        os.unlink(fh.name)
+
+
+def order_witnesses(ctx):
+    """Only when the property failed: smallest witnesses first; the first one is shrunk below the replay-file limit if needed and
+    is one that was seen to fail again in a fresh interpreter (a defect that depends on object addresses or on state left by
+    earlier executions may not repeat there), trying the smallest witness of every oracle and then the next smallest ones."""
+    if not ctx.witnesses:
+        return
+    ordered = sorted(ctx.witnesses, key=witness_size)
+    candidates, seen = [], set()
+    for w in ordered:
+        if w['oracle'] not in seen:
+            seen.add(w['oracle'])
+            candidates.append(w)
+    candidates += [w for w in ordered if not any(w is c for c in candidates)][:4]
+    for w in candidates[:12]:
+        small = shrink_witness(w) if witness_size(w) > REPLAY_LIMIT else w
+        if witness_size(small) <= REPLAY_LIMIT and replays_in_fresh_process(small):
+            ordered = [small] + [o for o in ordered if o is not w]
+            break
+    ctx.witnesses[:] = ordered
+
+
 def streams(ctx):
-    stream_directed(ctx)
-    stream_exhaustive(ctx)
-    stream_random(ctx, ctx.scale(600, 20000))
+    try:
+        stream_directed(ctx)
+        stream_exhaustive(ctx)
+        stream_random(ctx, ctx.scale(600, 20000))
+    finally:
+        order_witnesses(ctx)
 
 
 def disagreement_known(d, known):
@@ -729,6 +1160,7 @@ def search(ctx):
             stream_exhaustive(ctx, driver=False)
         if not ctx.witnesses:
             stream_random(ctx, 6000 if saved else 60000, driver=False, name='search-random')
+        order_witnesses(ctx)
     finally:
         ctx.quick = saved
 
@@ -749,6 +1181,25 @@ def replay(witness):
                 return out
             return e
         return run_impl(with_args(inp['model']), inp['globals'], inp['max']) != run_impl(inp['model'], inp['globals'], inp['max'])
+    if witness['oracle'] in ('parameter-binding', 'callee-sees-only-its-parameters'):
+        got = run_impl(inp['model'], inp['globals'], inp['max'])
+        seen = {key: got.get(key, got.get('error', got.get('hostexc'))) for key in ('result', 'log')}
+        if witness['oracle'] == 'parameter-binding':
+            return seen != inp['expect']
+        base = run_impl(inp['base_model'], inp['base_globals'], inp['max'])
+        return seen != {key: base.get(key, base.get('error', base.get('hostexc'))) for key in ('result', 'log')}
+    if witness['oracle'] == 'fresh-value-each-evaluation':
+        return fresh_oracle(run_impl(inp['model'], inp['globals'], inp['max'])) is not None
+    # first with short-lived copies, as in the streams (the earlier model is garbage when the model is built, so that object
+    # addresses can be reused), then with all the objects of the witness alive
+    if inp.get('history'):
+        for earlier in inp['history']:
+            transient = json.loads(json.dumps(earlier))
+            run_impl(transient, inp['globals'], inp['max'])
+            del transient
+        _, bad = impl_oracles(json.loads(json.dumps(inp['model'])), inp['globals'], inp['max'])
+        if any(name == witness['oracle'] for name, _, _ in bad):
+            return True
     for earlier in inp.get('history', []):
         run_impl(earlier, inp['globals'], inp['max'])
     _, bad = impl_oracles(inp['model'], inp['globals'], inp['max'])
@@ -763,8 +1214,12 @@ LEVEL_TEXT = ('Theorems about the Lean mirror of _execute_script_helper/_script_
               'value, function statement binds the global, budget test first); a script-function call runs its own body from index 0 with '
               'labels resolved in that body only - the caller list is not an input of the callee. Tied to the code by differential '
               'correspondence on hand-built validated models: every statement list of length <= 4 over 14 atoms (quick), + length 5 over 10 '
-              'atoms and length 6 over 9 atoms (thorough), random models <= 40 statements with duplicate labels and dangling jumps; implementation '
-              'oracles: independent reference statement interpreter, model dicts unchanged, two executions identical.')
+              'atoms and length 6 over 9 atoms (thorough), random models <= 40 statements with duplicate labels, dangling jumps, dropped call '
+              'arguments and in-place modification of every assigned value; directed families (duplicate labels, shared statement objects, '
+              'calls without args, the call-arity x parameter-name x globals matrix, container-building expressions re-evaluated after an '
+              'in-place modification); implementation oracles: independent reference statement interpreter, model dicts unchanged, two '
+              'executions identical, closed-form parameter binding, independence of a function from globals named like its parameters, '
+              'same fresh value at every evaluation.')
 LEVEL_NOTE = ('Trusted: Lean kernel; the correspondence harness, its reference interpreter and generators. The theorems are about the Lean '
               'model; model immutability and repeatability are properties of the Python objects and are checked by sampling only '
               '(exec_deterministic is trivial in Lean). Expressions are evaluated by the implementation in the reference interpreter. '
